@@ -97,7 +97,7 @@ Section Visit.
   (* json_c_visit: the calls in call order, and the value returned *)
   Definition json_c_visit (jso : jv) : list event * Z :=
     let '(tr, ret) := visit jso [] PNone KNone 0 [] in
-    (rev tr,
+    (rev_append tr [],      (* = rev tr, in linear time (the extracted model runs on large trees) *)
      if (ret =? RET_CONTINUE) || (ret =? RET_SKIP) || (ret =? RET_POP) || (ret =? RET_STOP)
      then 0 else RET_ERROR).
 End Visit.
